@@ -92,6 +92,18 @@ CLAIMED = {
         text='Props/C16.lean: the per-path action order of every copy/move/assign/cleanup function regenerated from the C++ equals the model; moved-from objects are destroyed and nulled; sentinel / ownership / const / small-buffer predicates; const and type violations throw with the state unchanged. The invariant Inv (structural plus per-id construction and destruction counts) is preserved by every operation, hence by every operation sequence of any length (inv_step, inv_run, no_error): no double destroy, no destroy of an unconstructed object, no double or wrong-allocator free, no dangling dispatch. Consequences: construct_destroy_once, blocks_returned_to_origin, dispatch_own_object, owners_disjoint, copies_independent, set_is_local, refs_alias, copy_of_ref_aliases, throwing_copy_leaves_empty.',
         note='Lean kernel; gen_c16.py translator; hand model tied on explored sequences only (pool of 3 wrappers, 8 allocator-trait configs, payloads 16/32/48 with SBS=32; depth 1 complete, deeper sampled, random up to 200); payload sizes are not the reference sentinels; referenced objects outlive wrappers; calls on empty wrappers out of scope; move constructors and allocators do not throw.',
         design='§6 C16'),
+    'C08': dict(
+        technique='Lean 4 proof (Beck-Teboulle three-point lemma, Lyapunov energy, rate, lifted to the FISTA loop model own callbacks) + translator of t_new / extrapolation / Lipschitz mode + bit-exact trace replay + exact / high-precision rate monitors on the real solver',
+        category='proof',
+        text='Props/C08.lean: tNext_identity and t_ge for the generated momentum update, fb_three_point, fista_lyapunov, fista_energy, fista_rate (F(x_hat_k) - F* <= 2||x0-x*||^2/(gamma_k (k+2)^2) <= the property bound), pg_monotone, pg_rate, and their versions on the model own callback stream for all Lipschitz modes, stop schedules and budgets (convexity of psi, prox optimality and validity of L_max as explicit hypotheses; QUB at accepted steps comes from the generated test with its rounding margin). Model tied by bit-exact trace replay; monitors on convex QPs (exact), Nesterov chain n=1000 and logistic costs.',
+        note='Lean kernel + Mathlib; gen_c08.py; exact-arithmetic theorems under Spec / QubMax; floating-point gap measured by the monitors (slack 1e-12 x scale); two genuine defects found here were repaired in /repo (momentum 4t, stale gradient after backtracking).',
+        design='§6 C08, §7-A, A.1'),
+    'C13': dict(
+        technique='Lean 4 proof (loop invariant through every line-search branch, stop schedule and Gauss-Newton / L-BFGS schedule) about a PANOC-OCP loop model tied by bit-exact trace replay of panoc-ocp.tpp + exact-rational roll-out / forward-sensitivity monitors with stop injection at every tick',
+        category='proof',
+        text='Props/C13.lean ocp_converged_certifies: for all evaluator oracles, all direction oracles (hence every gn_interval / gn_sticky / reset_lbfgs_on_gn_step / lqr_factor_cholesky), stop schedules, budgets, initial guesses: Converged => write_solution ran, u_out = u-hat of the final consistent iterate, eps = generated criterion of that iterate <= tolerance, (y, err_z) = write_solution on the forward roll-out of u_out; over ordered fields u_out in U, e = c - Pi_D(c + y/mu), y_out = y + mu e. Partial: the certificate is for the final iterate u_k; the residual at the returned u-hat_k is monitored only (open finding); infinite input bounds and the 2-norm = stage-accumulated p.p are covered by monitors only.',
+        note='Lean kernel + Mathlib; kernels regenerated by gen_c05/gen_c06; hand-written loop model tied on explored runs only; forward / backward / LQR / masked L-BFGS are oracles (C12), frame condition checked per call; real-number semantics in the field theorems.',
+        design='§6 C13, §7-J2,K,L'),
 }
 
 NOT_YET = {
